@@ -131,6 +131,7 @@ type Server struct {
 	scripts map[string]string
 
 	restores []RestoreCheck
+	curConn  int
 
 	// MachineryErrors collects problems of the double itself (e.g. unsupported Lua);
 	// harnesses turn a non-empty list into exit 2, never into a violation.
@@ -587,6 +588,7 @@ func (s *Server) execute(cs *ConnState, r *Req) []byte {
 }
 
 func (s *Server) executeNoRoute(cs *ConnState, r *Req) []byte {
+	s.curConn = cs.ID
 	s.markExecuted(cs, r)
 	if s.Extra != nil {
 		if rep := s.Extra(s, cs, r.Argv); rep != nil {
